@@ -847,15 +847,49 @@ def with_cells(fn, cellvals):
     return g
 
 
+class NativeBudgetExceeded(Exception):
+    """The real function executed more than NATIVE_LINE_BUDGET lines on a replayed input (it does not terminate, or not soon)."""
+
+
+NATIVE_LINE_BUDGET = 3_000_000
+
+
+def _budget_tracer(budget):
+    left = [budget]
+
+    def local(frame, event, arg):
+        if event == 'line':
+            left[0] -= 1
+            if left[0] < 0:
+                raise NativeBudgetExceeded('more than %d lines executed' % budget)
+        return local
+
+    def tracer(frame, event, arg):
+        return local
+    return tracer
+
+
 def run_native(fn, args, cells=()):
+    """Run the real function on concrete arguments (a copy).  The run is bounded by a line budget (a per-thread trace
+    function): a changed tree may loop forever on a replayed input, and the check must still end."""
+    import sys
     args = copy.deepcopy(args)
+    prev = sys.gettrace()
     try:
         fn = with_cells(fn, {k: args[k] for k in cells})
         pos, kws = call_args(closure_of(fn) if not cells else _closure_sig(fn), args)
-        r = fn(*pos, **kws)
-        if inspect.isgenerator(r):
-            r = list(r)
+        if prev is None:
+            sys.settrace(_budget_tracer(NATIVE_LINE_BUDGET))
+        try:
+            r = fn(*pos, **kws)
+            if inspect.isgenerator(r):
+                r = list(r)
+        finally:
+            if prev is None:
+                sys.settrace(None)
         return ('return', r), args
+    except NativeBudgetExceeded as ex:
+        return ('raise', ex), args
     except Exception as ex:
         return ('raise', ex), args
 
